@@ -52,6 +52,7 @@ THEOREMS = [
     "header_record_roundtrip_interval", "header_record_roundtrip_comment", "header_record_roundtrip_time_of_last_obs",
     "header_records_any_order", "body_comment_line_ignored_v3", "body_comment_line_ignored_v2", "blank_system_id_is_gps_partial",
     "century_file_spec", "c11_century_from_first_obs_refuted",
+    "file_text_lines", "rinex3_text_roundtrip", "rinex2_text_roundtrip",
 ]
 
 REQ = "From Verif Require Import Lib.Dyadic Model.C11_Rinex Model.C11_Check."
@@ -189,6 +190,13 @@ def has_blank_obs_line(f):
     return False
 
 
+def file_text(lines, terminated=True):
+    """The text of a file = its lines joined by newline characters, with or without a final terminator (Model/C11_Check.v:
+    file_text / text_lines; the records denoted are the same).  A final EMPTY line cannot be written without terminator."""
+    assert terminated or (lines and lines[-1] != ""), "an unterminated text cannot end with an empty line"
+    return "\n".join(lines) + ("\n" if terminated else "")
+
+
 def century_class(f):
     """class K of the finding c11_v2_century_from_first_obs: RINEX 2 file with an epoch record in another century than TIME OF FIRST OBS"""
     if f.get("version") != 2 or "lines" in f:
@@ -270,6 +278,30 @@ def corpus():
                             sats=[dict(sys="G", prn=1, pad="0", cells=[cell(20000000000 + k), cell(100000000 + k)])]) for k in range(11)]
         f["sampling"] = [1, 5]
         out.append((f"ten_hz_to_five_hz_v{version}", f))
+    # files whose text is NOT terminated by a newline character: the last line is an observation record (v3; v2 one-line record),
+    # a continuation line of a record (v2, 7 types), or an epoch line (truncated file: epoch record without satellites)
+    def unterminated(name, version, types, sats_last, cut=True):
+        f = json.loads(json.dumps(f1))
+        f["version"] = version
+        f["style"]["strip"] = cut
+        if version == 3:
+            f["hdr"]["version_text"] = "3.03"
+            f["systypes"] = [["G", types]]
+        else:
+            f["systypes"] = [["", types]]
+        mk = lambda k: [cell(1000 * (k + 1) + j + 1) for j in range(len(types))]
+        f["epochs"] = [dict(t=[2018, 2, 1, 0, 0, 0], clk=None, comment_after=[],
+                            sats=[dict(sys="G", prn=k + 1, pad="0", cells=mk(k)) for k in range(2)]),
+                       dict(t=[2018, 2, 1, 0, 0, 30 * 10 ** 7], clk=None, comment_after=[],
+                            sats=[dict(sys="G", prn=k + 1, pad="0", cells=mk(k)) for k in range(sats_last)])]
+        f["no_final_newline"] = True
+        out.append((name, f))
+    unterminated("unterminated_v3_obs_record", 3, ["C1C", "L1C", "S1C"], 2)
+    unterminated("unterminated_v2_obs_record", 2, ["C1", "L1", "S1"], 2)
+    unterminated("unterminated_v2_continuation_line", 2, ["C1", "C2", "C5", "P1", "P2", "L1", "L2"], 2)
+    unterminated("unterminated_v2_obs_record_blanks_kept", 2, ["C1", "L1"], 1, cut=False)
+    unterminated("unterminated_v3_epoch_line", 3, ["C1C", "L1C"], 0)
+    unterminated("unterminated_v2_epoch_line", 2, ["C1", "L1"], 0)
     # sessions running over New Year: epoch records in the calendar year after TIME OF FIRST OBS (two-digit year of RINEX 2 must be
     # combined with the CENTURY of the first observation, not with its year); without / with TIME OF LAST OBS; 1999 -> 2000
     for version in (2, 3):
@@ -326,11 +358,12 @@ def run(ctx):
         lines = f["lines"] if "lines" in f else gen.render(f)
         path = os.path.join(ctx.work, f"{name}.rnx")
         with open(path, "w", newline="") as fh:
-            fh.write("".join(l + "\n" for l in lines))
+            fh.write(file_text(lines, terminated=not f.get("no_final_newline")))
         p, err = parse_with_midgard(f["version"], path, f["sampling"])
         nrows = f["rows"] if "lines" in f else sum(len(e["sats"]) for e in f["epochs"] if epoch_on_grid(e, f["sampling"]))
         models[name] = f
         rep = dict(kind="file", name=name, version=f["version"], sampling=f["sampling"], lines=lines,
+                   no_final_newline=bool(f.get("no_final_newline")),
                    expected_rows=nrows, blank_observation_line=("" in f["lines"]) if "lines" in f else has_blank_obs_line(f),
                    how=f"parsers.parse_file('rinex{f['version']}_obs', <file with these lines>" +
                        (f", sampling_rate={f['sampling'][0]}/{f['sampling'][1]})" if f["sampling"] else ")") + ".as_dict() / .meta")
@@ -357,6 +390,8 @@ def run(ctx):
         ctx.count("nsys:%d" % len(f["systypes"]))
         if rep["blank_observation_line"]:
             ctx.count("class:blank_observation_line")
+        if f.get("no_final_newline"):
+            ctx.count("class:no_final_newline(files)")
         if f.get("new_year"):
             ctx.count("class:new_year_session(files)")
         if f.get("near_grid"):
@@ -438,7 +473,7 @@ def replay(ctx, path):
     if lines:
         out = os.path.join(ctx.work, "replay.rnx")
         with open(out, "w", newline="") as fh:
-            fh.write("".join(l + "\n" for l in lines))
+            fh.write(file_text(lines, terminated=not rep.get("no_final_newline")))
         print("file written to", out)
         p, err = parse_with_midgard(rep["version"], out, rep.get("sampling"))
         print("midgard:", err if p is None else f"{len(p.data.get('time', []))} rows, satellites {p.data.get('text', {}).get('satellite')}")
